@@ -226,7 +226,7 @@ RULE = ("a synthetic handshake with random master / traffic secrets and randoms 
         "seed)")
 ASSUMPTIONS = ["hashlib/hmac are correct; the reference key schedules in lib/tlsref.py / lib/quicref.py transcribe RFC 6101/2246/5246/8446/9001",
                "only material the RFC defines is compared (e.g. no CBC IV for TLS >= 1.1, no IV for RC4)",
-               "open findings F10 / F31 are excluded by construction (the per-packet key check needs every packet to be decryptable)",
+               "open finding F10 is excluded by construction (the per-packet key check needs every packet to be decryptable)",
                "function-level tests use the input domain the callers can produce: secrets of even length (master / pre-master secrets are 48 bytes, "
                "TLS 1.3 secrets 32/48), SSL 3.0 key blocks up to the 136 bytes the largest SSL 3.0 suite needs"]
 
